@@ -65,6 +65,14 @@ def echo_urls(port):
                 ("GEMINI://%s:%d/a/b?x=1&y=%%20z" % (host, P), (h, P, "/a/b", "x=1&y=%20z")),
                 ("gemini://%s:%d/p%%2Fq/;params=1?" % (host, P), (h, P, "/p%2Fq/;params=1", "")),
                 ("gemini://%s:%d/caf%%C3%%A9/~user/a:b@c" % (host, P), (h, P, "/caf%C3%A9/~user/a:b@c", ""))]
+    # the longest request lines the protocol allows (URL + CRLF = 1024 bytes), and the ones just below: accepted by the client,
+    # so the server has to parse them to the same components
+    base = "gemini://127.0.0.1:%d/" % P
+    for total in (1020, 1021, 1022):
+        pad = "a" * (total - len(base))
+        out.append((base + pad, ("127.0.0.1", P, "/" + pad, "")))
+        q = "q=" + "b" * (total - len(base) - len("p?q="))
+        out.append((base + "p?" + q, ("127.0.0.1", P, "/p", q)))
     return out
 
 def run_echo(res, tier):
